@@ -47,7 +47,7 @@ def _brew_once(ctx, cfg, B, D, sizes, chunk_pred, chunk_read, sched, suffix=".pi
             gen = symnp.Generator("seeded", log=perm_log, memo=memo, seed=42)
         else:
             gen = symnp.Generator("identity")
-        _, models, scores, descs = B.brew(dss, model=model, test_fdr=SNum(z3.Real("test_fdr")), folds=cfg["folds"], max_workers=2, rng=gen, subset_max_train=cfg.get("cap"))
+        _, models, scores, descs = B.brew(dss, model=model, test_fdr=SNum(z3.Real("test_fdr")), folds=cfg["folds"], max_workers=2, rng=gen, subset_max_train=cfg.get("cap"), ensemble=bool(cfg.get("ensemble")))
         trained = sorted((m.fold, [(int(f), int(r)) for f, r in (m.trained_on or [])]) for m in models)
         return ("ok", [list(s.items) for s in scores], syms, trained)
     except core.Unsupported:
@@ -174,6 +174,7 @@ def harnesses(tier):
         addb("n=4,folds=2,read chunk,task order", dict(sizes=[4], folds=2, vary="read", sched=True))
         addb("n=4,folds=2,parquet vs text,prediction chunk", dict(sizes=[4], folds=2, vary="prediction", suffix=".parquet"))
         addb("n=5,folds=2,training cap 2,read chunk,fixed fold layout", dict(sizes=[5], folds=2, vary="read", cap=2, fixed_hash_order=True))
+        addb("n=4,folds=2,ensemble,prediction chunk", dict(sizes=[4], folds=2, vary="prediction", ensemble=True))
         addc("n=3,dedup,confidence chunk", dict(n=3, dedup=True, vary="confidence"))
         addc("n=3,no dedup,confidence+merge chunk", dict(n=3, dedup=False, vary="both"))
         addc("n=3,dedup,parquet vs text", dict(n=3, dedup=True, vary="confidence", suffix=".parquet"))
@@ -182,6 +183,7 @@ def harnesses(tier):
         addc("n=3,no dedup,confidence chunk,task completion order", dict(n=3, dedup=False, vary="confidence", sched=True), 0.005)
         addb("n=5,folds=2,prediction chunk", dict(sizes=[5], folds=2, vary="prediction"), 0.01)
         addb("n=5,folds=3,prediction chunk", dict(sizes=[5], folds=3, vary="prediction"), 0.01)
+        addb("n=5,folds=2,ensemble,prediction chunk", dict(sizes=[5], folds=2, vary="prediction", ensemble=True), 0.01)
         addb("n=4,folds=2,read chunk,task order", dict(sizes=[4], folds=2, vary="read", sched=True), 0.01)
         addb("n=3+3,folds=2,read chunk,task order", dict(sizes=[3, 3], folds=2, vary="read", sched=True), 0.01)
         addb("n=4,folds=2,parquet vs text,prediction chunk", dict(sizes=[4], folds=2, vary="prediction", suffix=".parquet"), 0.01)
@@ -220,7 +222,7 @@ def real_brew_rel(cfg, inp):
         B.CHUNK_SIZE_ROWS_PREDICTION, B.CHUNK_SIZE_READ_ALL_DATA = cp, cr
         try:
             _, models, scores, descs = mokapot.brew(dss, model=c02._RealModel({}, False), test_fdr=1.0, folds=folds, max_workers=workers, rng=c02.scripted_rng(inp.get("perms") or []),
-                                                    subset_max_train=inp.get("cap"))
+                                                    subset_max_train=inp.get("cap"), ensemble=bool(cfg.get("ensemble")))
             return ("ok", [np.asarray(s, dtype=float).tolist() for s in scores], sorted((m.fold, list(m.trained_on or [])) for m in models))
         except Exception as ex:
             return ("exc", "%s: %s" % (type(ex).__name__, ex))
